@@ -633,16 +633,16 @@ func init() {
 			return st.makeError("<fmt.Errorf>")
 		},
 		"strconv.syntaxError": func(st *State, fr *Frame, fn *ssa.Function, a []Value) Value {
-			return st.makeNumError()
+			return st.makeNumError("ErrSyntax")
 		},
 		"strconv.rangeError": func(st *State, fr *Frame, fn *ssa.Function, a []Value) Value {
-			return st.makeNumError()
+			return st.makeNumError("ErrRange")
 		},
 		"strconv.baseError": func(st *State, fr *Frame, fn *ssa.Function, a []Value) Value {
-			return st.makeNumError()
+			return st.makeNumError("ErrSyntax")
 		},
 		"strconv.bitSizeError": func(st *State, fr *Frame, fn *ssa.Function, a []Value) Value {
-			return st.makeNumError()
+			return st.makeNumError("ErrSyntax")
 		},
 		"strconv.Itoa": func(st *State, fr *Frame, fn *ssa.Function, a []Value) Value {
 			n := a[0].(*term.Node)
@@ -651,6 +651,8 @@ func init() {
 			}
 			return st.strConst("<strconv.Itoa>")
 		},
+		"internal/stringslite.Clone": func(st *State, fr *Frame, fn *ssa.Function, a []Value) Value { return a[0] },
+		"strings.Clone":              func(st *State, fr *Frame, fn *ssa.Function, a []Value) Value { return a[0] },
 		"strings.IndexRune":    intrIndexRune,
 		"strings.ContainsRune": intrContainsRune,
 		"unicode/utf8.RuneCountInString": func(st *State, fr *Frame, fn *ssa.Function, a []Value) Value {
@@ -753,16 +755,40 @@ func (st *State) makeError(text string) Value {
 	return Iface{T: types.NewPointer(tn.Type()), V: Ptr{Obj: o}}
 }
 
-func (st *State) makeNumError() Value {
-	e := st.makeError("<strconv error>").(Iface)
-	return e.V // *NumError stand-in: callers only compare the error against nil after MakeInterface
+// makeNumError builds a *strconv.NumError whose Err is the package's sentinel (ErrSyntax, ErrRange, ...).
+func (st *State) makeNumError(sentinel string) Value {
+	pk := st.prog.Pkgs["strconv"]
+	tn := pk.Type("NumError")
+	o := st.allocZero(tn.Type())
+	o.Cells[0] = st.strConst("<strconv>")
+	o.Cells[1] = st.strConst("<input>")
+	if g, ok := pk.Members[sentinel].(*ssa.Global); ok {
+		o.Cells[2] = st.globalObject(g).Cells[0]
+	} else {
+		o.Cells[2] = st.makeError("strconv: " + sentinel)
+	}
+	return Ptr{Obj: o}
 }
 
 // strings.IndexRune / ContainsRune with a constant haystack.
 func intrIndexRune(st *State, fr *Frame, fn *ssa.Function, a []Value) Value {
-	hay := st.argStr(a[0])
-	r := a[1].(*term.Node)
 	b := st.b
+	r := a[1].(*term.Node)
+	if hs, ok := a[0].(Str); ok {
+		if _, conc := st.strConcrete(hs); !conc {
+			// symbolic haystack, constant ASCII needle: a byte equal to it is that rune (UTF-8 is self-synchronising)
+			c, isC := r.ConstVal()
+			if !isC || c >= 0x80 {
+				panic(st.unsupported("strings.IndexRune on a symbolic haystack needs a constant ASCII needle"))
+			}
+			res := b.Const(64, ^uint64(0))
+			for i := len(hs.B) - 1; i >= 0; i-- {
+				res = b.Ite(b.Eq(st.sub(hs.B[i]), b.Const(8, c)), b.Const(64, uint64(i)), res)
+			}
+			return res
+		}
+	}
+	hay := st.argStr(a[0])
 	if c, ok := r.ConstVal(); ok {
 		return b.Const(64, uint64(int64(strings.IndexRune(hay, rune(int32(c))))))
 	}
